@@ -331,7 +331,7 @@ func descReq(k int, r preq, e2e bool) string {
 	if e2e {
 		t = fmt.Sprintf("target(check=%v,add=%v)", r.tcheck, r.tadd)
 	}
-	return fmt.Sprintf("#%d %s approve=%v %s %s", k, r.in.desc(), r.approve, su, t)
+	return fmt.Sprintf("#%d %s approve=%v %s %s %s", k, r.in.desc(), r.approve, su, t, descReason(r.reason))
 }
 
 func tooManyHangs() bool { return atomic.LoadInt32(&hangs) >= 5 }
@@ -440,7 +440,7 @@ func emitTarget(class string, msgs []tmsg) {
 			ds = append(ds, fmt.Sprintf("#%d malformed(kind %d) %s", k, m.bad, m.in.desc()))
 		} else {
 			ms = append(ms, hv.App("M", hv.Ni(t.id(m.in)), hv.B(m.check), hv.B(m.addk)))
-			ds = append(ds, fmt.Sprintf("#%d comm %s check=%v add=%v", k, m.in.desc(), m.check, m.addk))
+			ds = append(ds, fmt.Sprintf("#%d comm %s check=%v add=%v %s", k, m.in.desc(), m.check, m.addk, descReason(m.reason)))
 		}
 	}
 	per := make([][]obs, len(res.perMsg))
@@ -477,6 +477,17 @@ func emitTarget(class string, msgs []tmsg) {
 
 // ---- generators
 
+// refusal texts: empty (the spec calls the reason optional; an error's text may be empty), one byte, typical,
+// exactly 255 bytes (the most a denial carries), longer (cut by WriteIntentDenied)
+var reasons = []string{"", "", "x", "not going to approve that", "target says so", strings.Repeat("r", 255), strings.Repeat("long reason ", 25)}
+
+func descReason(s string) string {
+	if len(s) > 30 {
+		return fmt.Sprintf("reason=%q..(%d bytes)", s[:12], len(s))
+	}
+	return fmt.Sprintf("reason=%q", s)
+}
+
 func main() {
 	defer hv.Flush()
 	defer func() {
@@ -490,7 +501,7 @@ func main() {
 	fresh := func() [][]byte { return append(fixedCerts(), genCert(r, r.Intn(3))) } // now and then a certificate of this run
 
 	cbReq := func(in wi, approve bool, reply replyMode, k int) preq {
-		return preq{in: in, approve: approve, setup: setupCb, certID: k + 1, postOK: true, reply: reply, tcheck: true, tadd: true}
+		return preq{in: in, approve: approve, setup: setupCb, certID: k + 1, postOK: true, reply: reply, tcheck: true, tadd: true, reason: hv.Pick(r, reasons)}
 	}
 
 	// S. slow target over a deadline-honouring buffered connection (TCP loopback): the target answers one
@@ -547,6 +558,19 @@ func main() {
 		emitPrincipal("regression", []preq{cbReq(base, false, rConfirm, 0)}, false)
 		emitPrincipal("regression", []preq{cbReq(base, false, rConfirm, 0), cbReq(second, true, rConfirm, 1)}, false)
 		emitPrincipal("regression-e2e", []preq{cbReq(base, true, rConfirm, 0), cbReq(second, false, rConfirm, 1)}, true)
+		// refusals without a text (seeded C06-3: "" was taken to mean "confirmed")
+		wr := func(q preq, reason string) preq { q.reason = reason; return q }
+		for _, rs := range []string{"", "x", strings.Repeat("r", 255), strings.Repeat("long reason ", 25)} {
+			emitPrincipal("empty-reason", []preq{wr(cbReq(base, true, rDeny, 0), rs)}, false)
+			emitPrincipal("empty-reason", []preq{cbReq(base, true, rConfirm, 0), wr(cbReq(second, false, rConfirm, 1), rs)}, false)
+			emitPrincipal("empty-reason", []preq{wr(cbReq(base, false, rConfirm, 0), rs), wr(cbReq(second, true, rDeny, 1), rs)}, false)
+			q := wr(cbReq(base, true, rConfirm, 0), rs)
+			q.tcheck = false
+			q2 := wr(cbReq(second, true, rConfirm, 1), rs)
+			q2.tadd = false
+			emitPrincipal("empty-reason-e2e", []preq{q, q2}, true)
+			emitTarget("empty-reason-target", []tmsg{{in: base, check: false, addk: true, reason: rs}, {in: second, check: true, addk: false, reason: rs}})
+		}
 	}
 
 	// 1. exhaustive: all histories of length <= 3 over {same,other target} x {approve,deny} x {confirm,deny,fail}
@@ -603,7 +627,7 @@ func main() {
 				in = genOtherTarget(r, base, pool)
 			}
 			prevs = append(prevs, in)
-			q := preq{in: in, approve: r.Chance(62), setup: setupCb, certID: 1 + r.Intn(4), postOK: !r.Chance(12)}
+			q := preq{in: in, approve: r.Chance(62), setup: setupCb, certID: 1 + r.Intn(4), postOK: !r.Chance(12), reason: hv.Pick(r, reasons)}
 			if r.Chance(10) {
 				q.setup = setupEarlyFail
 			}
@@ -626,7 +650,7 @@ func main() {
 		if len(prefix) == n {
 			var ms []tmsg
 			for _, a := range prefix {
-				ms = append(ms, tmsg{in: genIntent(r, pool), bad: map[int]int{4: 1, 5: 2}[a], check: a&1 == 1, addk: a&2 == 2})
+				ms = append(ms, tmsg{in: genIntent(r, pool), bad: map[int]int{4: 1, 5: 2}[a], check: a&1 == 1, addk: a&2 == 2, reason: hv.Pick(r, reasons)})
 			}
 			emitTarget(fmt.Sprintf("target-exhaustive-len%d", n), ms)
 			return
@@ -646,7 +670,7 @@ func main() {
 		}
 		var ms []tmsg
 		for j := 0; j < n; j++ {
-			m := tmsg{in: genIntent(r, pool), check: r.Chance(70), addk: r.Chance(70)}
+			m := tmsg{in: genIntent(r, pool), check: r.Chance(70), addk: r.Chance(70), reason: hv.Pick(r, reasons)}
 			if r.Chance(6) {
 				m.bad = 1 + r.Intn(2)
 			}
